@@ -593,5 +593,5 @@ pub fn run_case(p: &[&str]) -> String {
         return r;
     }
     dispatch_bits!(bits, run, (p), [0, 1, 2, 7, 8, 12, 16, 32, 60, 63, 64, 65, 100, 128, 160, 192, 250, 256, 384,
-        440, 448, 512, 535, 536, 832, 1024])
+        440, 448, 512, 535, 536, 832, 1024, 2048, 2056])
 }
